@@ -17,6 +17,10 @@ CHECKS.update({
  "C18": ("vseq", "model_checking", "breadth-first search over the history tree; every (node, ancestor, value) old-version write compared with the downgrade model and read back by the older definition",
          "Every node writes every representable value at every ancestor version; the bytes must equal the older definition's reference encoding (single and Vec) and the older definition must read the downgraded value; packed=yes at an old version is checked against the memory image by the shared sweep.", "§5 C18"),
 })
+CHECKS.update({
+ "C05": ("vseq", "model_checking", "exhaustive enumeration of all ordered pairs (saved type, loaded type) and of all single-byte header replacements against a three-valued wire-grammar oracle",
+         "Every ordered pair of enumerated types is saved as one and loaded as the other with schema checking: pairs whose wire grammars differ must fail with a schema error before the payload is interpreted, pairs with identical schema-shaped grammars must load the value, the rest makes no claim; every header byte x 255 replacement values must be rejected before any payload byte is read when magic/lib version/data version are wrong.", "§5 C05"),
+})
 TODO = {}
 props = [json.loads(l)["id"] for l in open("/verif/properties.jsonl")]
 checks = []
